@@ -135,6 +135,7 @@ fn check_proof_generic<S: Lin>(
     point: S::Pt,
     pre: u64,
     lambda: usize,
+    rs_rho_inv: Option<usize>,
     ctx: &mut CaseCtx,
 ) -> Result<(), Failure> {
     // the relative distance the soundness bound is evaluated with: derived from the parameter fields by
@@ -158,6 +159,15 @@ fn check_proof_generic<S: Lin>(
     };
     let mc = lincode::comm_mirror::<S>(&cm[0]).map_err(|e| Failure { sig: sig(P, S::NAME, "commit", "mirror"), msg: e })?;
     let n_ext = mc.metadata.n_ext_cols;
+    // Reed-Solomon rows: the declared output length is the size of the smallest radix-2 domain holding
+    // n_cols * rho_inv points, for every row length (one-entry rows included)
+    if let Some(rho) = rs_rho_inv {
+        let declared = (mc.metadata.n_cols * rho).next_power_of_two();
+        ctx.label_if(mc.metadata.n_cols == 1, "one_column_matrix");
+        ctx.check(n_ext == declared, sig(P, S::NAME, "commit", "codeword_length_not_the_declared_one"), || {
+            format!("rows of {} entries at inverse rate {rho} are encoded to {n_ext} symbols, the code declares {declared}", mc.metadata.n_cols)
+        })?;
+    }
     let want = lincode::expected_t::<Fr>(lambda, dist, n_ext);
     let approx = lincode::approx_t::<Fr>(lambda, dist, n_ext);
     let mut sp = sponge::<Fr>(pre);
@@ -304,7 +314,7 @@ fn check_uligero(c: &PCase, ctx: &mut CaseCtx) -> Result<(), Failure> {
     info.supported = deg;
     let poly = ULigero::poly(&info, &c.poly).poly;
     ctx.label(&format!("rho_inv:{rho}"));
-    check_proof_generic::<ULigero>(&keys, poly, c.point.to_f(), c.pre, lambda, ctx)
+    check_proof_generic::<ULigero>(&keys, poly, c.point.to_f(), c.pre, lambda, Some(rho), ctx)
 }
 
 fn check_mligero(c: &PCase, ctx: &mut CaseCtx) -> Result<(), Failure> {
@@ -315,7 +325,7 @@ fn check_mligero(c: &PCase, ctx: &mut CaseCtx) -> Result<(), Failure> {
     let Ok(keys) = keys_from::<MLigero>(pp, json!({"lambda": lambda, "rho_inv": rho, "wf": c.wf, "num_vars": nv}), nv) else { return Ok(()) };
     let poly = mle_from_raw(nv, &c.poly).poly;
     ctx.label(&format!("rho_inv:{rho}"));
-    check_proof_generic::<MLigero>(&keys, poly, c.point.to_vec(nv), c.pre, lambda, ctx)
+    check_proof_generic::<MLigero>(&keys, poly, c.point.to_vec(nv), c.pre, lambda, Some(rho), ctx)
 }
 
 fn check_brakedown(c: &PCase, ctx: &mut CaseCtx) -> Result<(), Failure> {
@@ -326,7 +336,7 @@ fn check_brakedown(c: &PCase, ctx: &mut CaseCtx) -> Result<(), Failure> {
     }) else { return Ok(()) };
     let Ok(keys) = keys_from::<Brakedown>((*pp).clone(), json!({"num_vars": nv, "wf": c.wf}), nv) else { return Ok(()) };
     let poly = mle_from_raw(nv, &c.poly).poly;
-    check_proof_generic::<Brakedown>(&keys, poly, c.point.to_vec(nv), c.pre, 128, ctx)
+    check_proof_generic::<Brakedown>(&keys, poly, c.point.to_vec(nv), c.pre, 128, None, ctx)
 }
 
 #[derive(Clone, Debug, Serialize, Deserialize)]
@@ -416,7 +426,7 @@ pub fn spec() -> PropertySpec {
     units.push(PropUnit::new("C13:brakedown:proof-columns", 120, 1200, 4, |_| pcase().boxed(), check_brakedown));
     PropertySpec {
         id: "C13",
-        rule: "(a) For every lambda in 1..=256 and rate 1/rho_inv, rho_inv in {2,3,4,8,16}: the exact t (smallest t with 2(1-d/2)^t + n/|F| <= 2^-lambda, big-integer arithmetic, capped at n) fixes the polynomial length L_k = t*4^k/2 at which Ligero's compute_dimensions must switch from 2^k to 2^(k+1) rows; the library's public compute_dimensions is compared with the harness's own (exact t, integer square root) at L_k and L_k+1 for k in {1,4,8} (thorough: k = 1..12 plus random offsets), lengths up to 2^41, so a t that is off by one at any lambda/rate changes a row count; combinations for which no t exists must abort. (b) Generated honest proofs (univariate Ligero up to degree 2500, multilinear Ligero up to 11 variables, lambda in 1..=256, five rates, with/without well-formedness; Brakedown default parameters up to 10 variables): |columns| = |paths| = exact t for the codeword length in the commitment metadata, every leaf index inside the codeword, and the harness's reference verifier (own Fiat-Shamir index derivation: ceil(bits(n)/8) bytes squeezed, re-absorbed, reduced mod n; by-hand Merkle authentication; column checks) accepts. (a') Ligero's field-size rule, enumerated for rho_inv in 2..=40 and a few larger values, univariate and multilinear: trim serves exactly the parameters with rho_inv <= two-adicity of the field and reports the capacity 4^(two_adicity - rho_inv). (b') the library verifier rejects the honest proof once authentication paths, columns or both are cut to 0, t/2, t-1 or a generated count below t, and once one or all (column, path) pairs are replaced by the authentic pair of another codeword position (a position where the encoded opened vectors agree, where one exists). (c) E(a x + b y) = a E(x) + b E(y) on random and sparse messages of the row length, |E(x)| = declared n_ext_cols. Non-trivial: t below the codeword length (uncapped), or a message whose length is not a power of two.",
+        rule: "(a) For every lambda in 1..=256 and rate 1/rho_inv, rho_inv in {2,3,4,8,16}: the exact t (smallest t with 2(1-d/2)^t + n/|F| <= 2^-lambda, big-integer arithmetic, capped at n) fixes the polynomial length L_k = t*4^k/2 at which Ligero's compute_dimensions must switch from 2^k to 2^(k+1) rows; the library's public compute_dimensions is compared with the harness's own (exact t, integer square root) at L_k and L_k+1 for k in {1,4,8} (thorough: k = 1..12 plus random offsets), lengths up to 2^41, so a t that is off by one at any lambda/rate changes a row count; combinations for which no t exists must abort. (b) Generated honest proofs (univariate Ligero up to degree 2500, multilinear Ligero up to 11 variables, lambda in 1..=256, five rates, with/without well-formedness; Brakedown default parameters up to 10 variables): |columns| = |paths| = exact t for the codeword length in the commitment metadata, every leaf index inside the codeword, and the harness's reference verifier (own Fiat-Shamir index derivation: ceil(bits(n)/8) bytes squeezed, re-absorbed, reduced mod n; by-hand Merkle authentication; column checks) accepts. (a') Ligero's field-size rule, enumerated for rho_inv in 2..=40 and a few larger values, univariate and multilinear: trim serves exactly the parameters with rho_inv <= two-adicity of the field and reports the capacity 4^(two_adicity - rho_inv). (b') the library verifier rejects the honest proof once authentication paths, columns or both are cut to 0, t/2, t-1 or a generated count below t, and once one or all (column, path) pairs are replaced by the authentic pair of another codeword position (a position where the encoded opened vectors agree, where one exists). (c) E(a x + b y) = a E(x) + b E(y) on random and sparse messages of the row length, |E(x)| = declared n_ext_cols, and for the Reed-Solomon rows of Ligero n_ext_cols = next_power_of_two(n_cols * rho_inv) for every row length (one-entry rows of zero / constant / tiny polynomials included). Non-trivial: t below the codeword length (uncapped), or a message whose length is not a power of two.",
         assumptions: vec![
             "calculate_t is reached only through the public surface (compute_dimensions, proofs)",
             "a disagreement explained only by the library using 2^MODULUS_BIT_SIZE for |F| gets its own signature (field_size_approximation)",
